@@ -38,6 +38,8 @@ pub trait Tree: Sized + Clone + PartialEq + Debug + Serialize + DeserializeOwned
     fn new_(v: &mut [Self::T]) -> Self;
     fn from_vec(v: Vec<Self::T>) -> Self;
     fn collect_(v: Vec<Self::T>) -> Self;
+    /// collect from an iterator whose size hint is of the given kind (iterops::hinted)
+    fn collect_hinted(v: Vec<Self::T>, kind: u8) -> Self;
     fn len_(&self) -> usize;
     fn is_empty_(&self) -> bool;
     fn n_levels_(&self) -> usize;
@@ -121,6 +123,7 @@ macro_rules! impl_tree {
             fn new_(v: &mut [$t]) -> Self { $alias(qwt::$alias::<$t>::new(v)) }
             fn from_vec(v: Vec<$t>) -> Self { $alias(qwt::$alias::<$t>::from(v)) }
             fn collect_(v: Vec<$t>) -> Self { $alias(v.into_iter().collect()) }
+            fn collect_hinted(v: Vec<$t>, kind: u8) -> Self { $alias(crate::iterops::hinted(v, kind).collect()) }
             fn len_(&self) -> usize { self.0.len() }
             fn is_empty_(&self) -> bool { self.0.is_empty() }
             fn n_levels_(&self) -> usize { self.0.n_levels() }
